@@ -17,13 +17,14 @@ open IpcHub.RtspSpec (fieldNameOK fieldValueOK uriOK decimal guaranteedBody)
 
 local notation "Bytes" => List UInt8
 
-/-- The source facts the theorems rest on, regenerated from /repo on every run: the line and
-    Content-Length limits and their guards, the body read error being returned, the recovering
+/-- The source facts the theorems rest on, regenerated from /repo on every run: a line limit
+    (between 1 KiB and 1 MiB) and a Content-Length limit (between 64 KiB and 16 MiB) with their guards, the body read error being returned, the recovering
     RTP header parse, the field-name / status / method tables, the literals the writers emit,
     and the dispatch of `receive`. -/
 theorem c14_source_facts :
     IpcHub.Gen.rtspWireFactsUnknown = [] ∧
-    IpcHub.Gen.lineLimit = some 16384 ∧ IpcHub.Gen.bodyLimit = some 1048576 ∧
+    IpcHub.Gen.lineLimit.any (fun ml => decide (1024 ≤ ml ∧ ml ≤ 1048576)) = true ∧
+    IpcHub.Gen.bodyLimit.any (fun mb => decide (65536 ≤ mb ∧ mb ≤ 16777216)) = true ∧
     IpcHub.Gen.bodyErrReturned = true ∧ IpcHub.Gen.rtpUnmarshalRecovers = true ∧
     IpcHub.Gen.canonicalFieldNames.map IpcHub.RtspSpec.ascii = IpcHub.RtspSpec.knownFields ∧
     IpcHub.Gen.canonicalFieldNames = IpcHub.Gen.fieldConstants ∧
@@ -44,15 +45,16 @@ theorem c14_source_facts :
     IpcHub.Gen.receiveDispatch = ["sl[0] == rtpPackPrefix", "pack != nil", "for i < 4", "sl[i] != rtspProto[i]", "i == 4"] := by
   decide
 
-/-- The codec of the current tree as the model sees it: limits on, errors returned; the limits
-    leave room for every body the specification guarantees; the canonical field names are ASCII
+/-- The codec of the current tree as the model sees it: limits on (`genMaxLine`, `genMaxBody`:
+    the values in the source, 16384 and 1048576 at the time of writing), errors returned; the
+    limits leave room for every body the specification guarantees; the canonical field names are ASCII
     and pairwise different when upper-cased (so the case folding is well defined) and contain
     `Content-Length`; every status text of the table is free of CR/LF with a code of three
     digits, and every method constant is a token of ≥ 4 bytes that starts with neither `$` nor
     "RTSP" (so `receive` dispatches emitted messages correctly). -/
 theorem c14_codec_facts :
-    genCfg.maxLine = some 16384 ∧ genCfg.maxBody = some 1048576 ∧ genCfg.bodyErrReturned = true ∧
-    genCfg.rtpRecover = true ∧ guaranteedBody ≤ 1048576 ∧
+    genCfg.maxLine = some genMaxLine ∧ genCfg.maxBody = some genMaxBody ∧ genCfg.bodyErrReturned = true ∧
+    genCfg.rtpRecover = true ∧ guaranteedBody ≤ genMaxBody ∧
     (∀ f ∈ genCfg.fieldNames, ∀ b ∈ f, b < 0x80) ∧
     (genCfg.fieldNames.map (fun f => f.map upperByte)).Nodup ∧
     fieldContentLength ∈ genCfg.fieldNames ∧
@@ -77,12 +79,12 @@ theorem c14_request_roundtrip {U : Type} (ops : UrlOps U)
     (hu : uriOK (ops.print url) = true) (hparse : ops.parse (ops.print url) = some url)
     (hset : ops.setHost url (ops.host url) = url) (hhost : trimSuffixColon (ops.host url) = ops.host url)
     (hstar : ops.print url = [0x2A] → method = methodOptions)
-    (hline : method.length + 1 + (ops.print url).length + 9 ≤ 16384)
-    (hh : HeaderOK genCfg h body) (hlen : body.length ≤ 1048576) :
+    (hline : method.length + 1 + (ops.print url).length + 9 ≤ genMaxLine)
+    (hh : HeaderOK genCfg h body) (hlen : body.length ≤ genMaxBody) :
     readRequest genCfg ops (writeRequest ops { method, url, proto := proto0, header := h, body } ++ rest) =
       .ok ({ method, url, proto := ascii "RTSP/1.0", header := readBackHeader genCfg h body, body }, rest) := by
   rw [ascii_proto]
-  exact readRequest_written genCfg ops 16384 1048576 c14_codec_facts.1 c14_codec_facts.2.1 (by decide)
+  exact readRequest_written genCfg ops genMaxLine genMaxBody c14_codec_facts.1 c14_codec_facts.2.1 (by decide)
     method url proto0 h body rest hm hdollar hu hparse hset hhost hstar hline hh.fields hh.distinct
     (c14_canonical_names_fixed _ c14_codec_facts.2.2.2.2.2.2.2.1) hh.stray hlen
 
@@ -93,14 +95,14 @@ theorem c14_request_roundtrip {U : Type} (ops : UrlOps U)
 theorem c14_response_roundtrip (code : Nat) (status : Bytes) (h : Header) (body rest : Bytes)
     (hc1 : 100 ≤ code) (hc2 : code ≤ 999)
     (hreason : (0x0A : UInt8) ∉ statusTextOf genStatusTable code status)
-    (hline : 13 + (statusTextOf genStatusTable code status).length ≤ 16384)
-    (hh : HeaderOK genCfg h body) (hlen : body.length ≤ 1048576) :
+    (hline : 13 + (statusTextOf genStatusTable code status).length ≤ genMaxLine)
+    (hh : HeaderOK genCfg h body) (hlen : body.length ≤ genMaxBody) :
     readResponse genCfg (writeResponse genStatusTable code status h body ++ rest) =
       .ok ({ proto := ascii "RTSP/1.0", statusCode := code,
              status := decimal code ++ 0x20 :: statusTextOf genStatusTable code status,
              header := readBackHeader genCfg h body, body }, rest) := by
   rw [ascii_proto]
-  exact readResponse_written genCfg 16384 1048576 c14_codec_facts.1 c14_codec_facts.2.1 (by decide)
+  exact readResponse_written genCfg genMaxLine genMaxBody c14_codec_facts.1 c14_codec_facts.2.1 (by decide)
     genStatusTable code status h body rest hc1 hc2 hreason hline hh.fields hh.distinct
     (c14_canonical_names_fixed _ c14_codec_facts.2.2.2.2.2.2.2.1) hh.stray hlen
 
@@ -121,18 +123,18 @@ theorem c14_frame_roundtrip (chans : List Int) (c : Nat) (ch : Int) (data rest :
     / `PullClient` — `receive` until it fails — applied to their concatenation yields exactly
     that sequence of events, each `receive` consuming exactly one item, and then ends with EOF. -/
 theorem c14_stream {U : Type} (ops : UrlOps U) (chans : List Int) (items : List (Item U))
-    (hok : ∀ it ∈ items, it.OK genCfg ops genStatusTable chans 16384 1048576) (fuel : Nat) (hf : fuel > items.length) :
+    (hok : ∀ it ∈ items, it.OK genCfg ops genStatusTable chans genMaxLine genMaxBody) (fuel : Nat) (hf : fuel > items.length) :
     receiveAll genCfg ops chans fuel ((items.map (fun it => it.wire ops genStatusTable chans)).flatten) =
       (items.map (fun it => it.event genCfg genStatusTable), .eof) :=
-  receiveAll_items genCfg ops genStatusTable chans 16384 1048576 c14_codec_facts.1 c14_codec_facts.2.1 (by decide)
+  receiveAll_items genCfg ops genStatusTable chans genMaxLine genMaxBody c14_codec_facts.1 c14_codec_facts.2.1 (by decide)
     (c14_canonical_names_fixed _ c14_codec_facts.2.2.2.2.2.2.2.1) items hok fuel hf
 
 /-- one step of `c14_stream`, for an arbitrary continuation (not only further items): one
     `receive` consumes exactly one item and leaves the stream positioned at what follows -/
 theorem c14_receive_one {U : Type} (ops : UrlOps U) (chans : List Int) (it : Item U)
-    (hok : it.OK genCfg ops genStatusTable chans 16384 1048576) (rest : Bytes) :
+    (hok : it.OK genCfg ops genStatusTable chans genMaxLine genMaxBody) (rest : Bytes) :
     receive genCfg ops chans (it.wire ops genStatusTable chans ++ rest) = .ok (it.event genCfg genStatusTable, rest) :=
-  receive_item genCfg ops genStatusTable chans 16384 1048576 c14_codec_facts.1 c14_codec_facts.2.1 (by decide)
+  receive_item genCfg ops genStatusTable chans genMaxLine genMaxBody c14_codec_facts.1 c14_codec_facts.2.1 (by decide)
     (c14_canonical_names_fixed _ c14_codec_facts.2.2.2.2.2.2.2.1) it hok rest
 
 /-- `c14_chunking` (prefix stability), for EVERY byte string — written by the codec or not: if
@@ -172,25 +174,25 @@ theorem c14_never_panics {U : Type} (ops : UrlOps U) (chans : List Int) (s : Byt
    readPacket_ne_panic genCfg c14_codec_facts.2.2.2.1 chans s,
    fun fuel => receiveAll_ne_panic genCfg c14_codec_facts.2.2.2.1 ops chans fuel s⟩
 
-/-- `c14_bounded` (lines): if the first 16386 bytes of what a line reader sees hold no LF, the
+/-- `c14_bounded` (lines): if the first `genMaxLine + 2` bytes of what a line reader sees hold no LF, the
     request, the response and the header reader fail with the line-limit error WHATEVER follows —
     the verdict needs a bounded prefix only, nothing is buffered beyond it. -/
-theorem c14_line_bounded {U : Type} (ops : UrlOps U) (l rest : Bytes) (h : (0x0A : UInt8) ∉ l) (hl : l.length ≥ 16386) :
+theorem c14_line_bounded {U : Type} (ops : UrlOps U) (l rest : Bytes) (h : (0x0A : UInt8) ∉ l) (hl : l.length ≥ genMaxLine + 2) :
     readRequest genCfg ops (l ++ rest) = .error .lineTooLong ∧
     readResponse genCfg (l ++ rest) = .error .lineTooLong ∧
     readHeader genCfg (l ++ rest) = .error .lineTooLong := by
-  have hr := readLine_too_long genCfg 16384 c14_codec_facts.1 l rest h hl
+  have hr := readLine_too_long genCfg genMaxLine c14_codec_facts.1 l rest h hl
   refine ⟨?_, ?_, ?_⟩
   · unfold readRequest; rw [hr]
   · unfold readResponse; rw [hr]
   · unfold readHeader readHeaderAux; rw [hr]
 
-/-- `c14_bounded` (bodies): a header whose Content-Length is a number above 1 MiB, or does not
+/-- `c14_bounded` (bodies): a header whose Content-Length is a number above `genMaxBody`, or does not
     fit 64 bits, makes the body reader fail before it looks at — let alone allocates for — a
     single body byte, for EVERY stream behind it. -/
 theorem c14_content_length_bounded (h : Header) (s : Bytes)
     (hbig : parseInt (h.get fieldContentLength) 64 = .rangeErr ∨
-            ∃ n, parseInt (h.get fieldContentLength) 64 = .ok n ∧ n > 1048576) :
+            ∃ n, parseInt (h.get fieldContentLength) 64 = .ok n ∧ n > genMaxBody) :
     readBody genCfg h s = .error .bodyTooLarge := by
   unfold readBody contentLength
   rw [c14_codec_facts.2.1]
